@@ -48,6 +48,30 @@ def deep_string(rng, depth: int) -> str:
     return "".join(f"[{rng.randint(1, 499)}]{o}(" for o in ops) + "[1]" + ")" * depth
 
 
+def twin(rng, s: str) -> str:
+    import re as _re
+    kind = rng.choice(["trail", "nows", "double", "lower", "swap", "inkey", "afterbracket", "lead"])
+    if kind == "trail":
+        return s + " "
+    if kind == "nows":
+        return s.replace(" ", "")
+    if kind == "double":
+        return s.replace(" ", "  ")
+    if kind == "lower":
+        return s.lower()
+    if kind == "swap":
+        return s.swapcase()
+    if kind == "inkey":      # "[12]" -> "[1 2]" (malformed)
+        m = [m for m in _re.finditer(r"\[(\d)(\d+)", s)]
+        if m:
+            x = rng.choice(m)
+            return s[:x.start()] + "[" + x.group(1) + " " + x.group(2) + s[x.end():]
+        return s + " "
+    if kind == "afterbracket":
+        return s.replace("[", "[ ", 1)
+    return " " + s
+
+
 class History:
     """runs one history on the implementation, generating edits against the live objects"""
 
@@ -321,6 +345,15 @@ def run(ctx: Ctx) -> None:
                 s = s[:-1]  # malformed: SyntaxError is not memoised
             if s not in strings:
                 strings.append(s)
+                if parser in ("cond", "ahb") and not deep and rng.random() < 0.35:
+                    # a near twin: a different string that a careless normalisation (whitespace removal, stripping, case folding) would identify with s;
+                    # some twins are malformed (blank inside a key, trailing blank after a bare modal mark) - the answer for either must not depend on the other
+                    tw = twin(rng, s)
+                    if tw != s and tw not in strings:
+                        strings.append(tw)
+        if parser == "ahb" and not deep:
+            for pair in (("X", "X "), ("Muss [1] Kann", "Muss [1] Kann "), ("Soll[7]", "So ll[7]")):
+                strings += [x for x in (pair if rng.random() < 0.5 else pair[::-1]) if x not in strings]
         h = History(ctx, parser, strings)
         h.deep = deep
         seen = []
